@@ -227,6 +227,9 @@ JudgeLabwareOp(tr, T, ev) ==
        LET rb == Run(T, vol, TrackedComp(tr), ev.recs) IN rb.err = "" /\ rb.vol = post.vol),
     \* a well id that does not exist in the labware: the call raises and no pipetting record is emitted
     Cl("C08.badwell", P.ok /\ Len(P.ws) >= 1 /\ (\A i \in 1..Len(P.ws) : ~ValidWell(L.g, P.ws[i])),
+       ev.out # "ok" /\ ev.recs = <<>>),
+    \* ... also when only some of the named wells do not exist and whatever the volumes are (zero included)
+    Cl("C08.anybad", P.ok /\ (\E i \in 1..Len(P.ws) : ~ValidWell(L.g, P.ws[i])),
        ev.out # "ok" /\ ev.recs = <<>>)
   }
 
@@ -495,7 +498,9 @@ JudgeEvo(tr, T, ev) ==
       c == cmds[1]
       rb == Run(T, vol, TrackedComp(tr), ev.recs)
   IN {
-    Cl("C13.accept", expressible /\ canonical /\ feasible /\ a.labelok, ok),
+    \* (a.foreign: the per-tip volumes were handed over in a representation the library need not accept - tuple, array;
+    \* whether it does is not judged, what it emits and books if it does is)
+    Cl("C13.accept", expressible /\ canonical /\ feasible /\ a.labelok /\ ~a.foreign, ok),
     Cl("C13.reject", ~expressible /\ wellsok /\ shaped, ~ok /\ cmds = <<>>),
     Cl("C13.rejectshape", wellsok /\ ~shaped /\ tipsok, ~ok /\ cmds = <<>>),
     Cl("C13.tracking", ok /\ feasible, post.vol[k] = (IF isAsp THEN rr.vol ELSE ra.vol)),
